@@ -199,3 +199,45 @@ Proof. vm_compute. reflexivity. Qed.
 Example ex_once :
   kfilter 7 (concat (run (final (init 10 1000) (ex_pre ++ [OMove 7 25500])) (repeat OTick 60))) = [(7, 70)].
 Proof. vm_compute. reflexivity. Qed.
+
+(* ------------------------------------------------------------------ *)
+(* The wheel through its client collection.Cache (composed model C16/ModelW.v =
+   cache + LRU + this wheel, SetWithExpire refreshing with SetTimer). *)
+From GZ Require Import C12.Client C12.ClientProofs.
+
+(* for every limit, wheel size, interval and history of Set / Get / Del / Take / Tick:
+   the wheel holds a timer for a key iff the cache holds an entry for it *)
+Theorem cache_has_one_timer_per_entry : forall limit n i ops x,
+  1 <= n -> 1 <= i ->
+  let s := reach (CW.cw_new limit n i false) ops in
+  CM.alookup x (CM.cdata (CW.cwc s)) <> None <-> pending (CW.cww s) x <> None.
+Proof. exact one_timer_per_cache_entry. Qed.
+Print Assumptions cache_has_one_timer_per_entry.
+
+(* the executable client-level judge used by prop_ok accepts what the composed model
+   does (its requests to the wheel, the callbacks, the keys it holds) on every history *)
+Theorem client_judge_accepts_composed_model : forall limit n i ops,
+  1 <= n -> 1 <= i ->
+  client_ok i [] [] (observe (CW.cw_new limit n i false) ops) = true.
+Proof. exact client_judge_accepts_model. Qed.
+Print Assumptions client_judge_accepts_composed_model.
+
+(* non-vacuity: a limit-2 cache, Del then Set of the same key, an eviction, expiry *)
+Definition ex_cache_history : list CW.xop :=
+  [CW.XSet 1 10 2500; CW.XDel 1; CW.XSet 1 11 2500; CW.XSet 2 20 3500; CW.XSet 3 30 1500;
+   CW.XTick; CW.XGet 2; CW.XTick; CW.XTake 4 (Some 40) 2500; CW.XTick; CW.XTick].
+Example ex_cache_observed :
+  map (fun ob => (otrace (snd ob), ofired (snd ob), okeys (snd ob))) (observe (CW.cw_new 2 300 1000 false) ex_cache_history) =
+  [([OSet 1 10 2500], [], [1]); ([ORemove 1], [], []); ([OSet 1 11 2500], [], [1]);
+   ([OSet 2 20 3500], [], [2; 1]); ([ORemove 1; OSet 3 30 1500], [], [3; 2]);
+   ([OTick; ORemove 3], [(3, 30)], [2]); ([], [], [2]); ([OTick], [], [2]);
+   ([OSet 4 40 2500], [], [4; 2]); ([OTick; ORemove 2], [(2, 20)], [4]); ([OTick; ORemove 4], [(4, 40)], [])].
+Proof. vm_compute. reflexivity. Qed.
+(* and the judge rejects the history of the seeded change C12-3: the timer set by the
+   second Set is removed by the deferred RemoveTimer *)
+Example ex_judge_rejects_deferred_removal :
+  client_ok 1000 [] []
+    [(KSet 1 10 2500, mkKobs [OSet 1 10 2500] [] [1] RetNone);
+     (KDel 1, mkKobs [ORemove 1] [] [] RetNone);
+     (KSet 1 11 2500, mkKobs [OSet 1 11 2500; ORemove 1] [] [1] RetNone)] = false.
+Proof. vm_compute. reflexivity. Qed.
